@@ -12,8 +12,8 @@ RULE = (
     "removed set without duplicates, and a second call returns [] and changes nothing. non-trivial = >=1 dead node; distinct = canonical circuit + flag"
 )
 BUDGET = {
-    "quick": {"workers": 16, "cases": 150, "secs": 40, "min_cases": 1200},
-    "thorough": {"workers": 16, "rounds": 4, "cases": 600, "secs": 200, "min_cases": 12000},
+    "quick": {"workers": 16, "cases": 1500, "secs": 60, "min_cases": 12000},
+    "thorough": {"workers": 16, "rounds": 4, "cases": 4000, "secs": 420, "min_cases": 128000},
 }
 ANCHORS = ["circuit:Circuit.remove_unloaded"]
 
